@@ -34,11 +34,11 @@ func Go(f func()) {
 func Tracked(f func()) {
 	starting.Add(-1)
 	f()
-	trackedSink++
+	trackedSink.Add(1)
 }
 
 var (
-	trackedSink int
+	trackedSink atomic.Int64
 	starting    atomic.Int64
 )
 
@@ -74,13 +74,18 @@ type Conn struct {
 	// BeforeWrite, if set, runs before anything else in WriteTo (used to park senders).
 	BeforeWrite func(to *net.UDPAddr, data []byte)
 	matched     map[int64]bool
+	// shortWait: goroutines that were last told to wait a short (virtual-zero or bounded real) time.
+	// Such a goroutine sits in a select on a timer that is about to fire; in a goroutine dump it looks
+	// exactly like one that waits an hour, and under load the runtime may take longer to fire the timer
+	// than the barrier takes to look twice. The barrier therefore counts it as busy.
+	shortWait map[int64]bool
 	// DelayHook, if set, overrides the virtual time-out decision.
 	DelayHook func(gid int64, matched bool) time.Duration
 	delays    int
 }
 
 func New(local *net.UDPAddr) *Conn {
-	c := &Conn{local: local, matched: map[int64]bool{}}
+	c := &Conn{local: local, matched: map[int64]bool{}, shortWait: map[int64]bool{}}
 	c.cond = sync.NewCond(&c.mu)
 	return c
 }
@@ -117,6 +122,7 @@ func (c *Conn) WriteTo(b []byte, addr net.Addr) (int, error) {
 		return 0, net.ErrClosed
 	}
 	o := Out{Seq: len(c.out), To: ua, Data: append([]byte(nil), b...), At: time.Now(), G: gid}
+	delete(c.shortWait, gid)
 	c.out = append(c.out, o)
 	idx := len(c.out) - 1
 	hook := c.OnWrite
@@ -147,13 +153,27 @@ func (c *Conn) ResendDelay() time.Duration {
 	hook := c.DelayHook
 	c.delays++
 	c.mu.Unlock()
-	if hook != nil {
-		return hook(gid, m)
+	var d time.Duration
+	switch {
+	case hook != nil:
+		d = hook(gid, m)
+	case m:
+		d = time.Hour
 	}
-	if m {
-		return time.Hour
+	c.mu.Lock()
+	if d < time.Minute {
+		c.shortWait[gid] = true
+	} else {
+		delete(c.shortWait, gid)
 	}
-	return 0
+	c.mu.Unlock()
+	return d
+}
+
+func (c *Conn) inShortWait(gid int64) bool {
+	c.mu.Lock()
+	defer c.mu.Unlock()
+	return c.shortWait[gid]
 }
 
 func (c *Conn) Close() error {
@@ -290,13 +310,19 @@ func (c *Conn) ModuleGoroutines() []GInfo {
 	return ret
 }
 
-func busy(gs []GInfo) *GInfo {
+func (c *Conn) busy(gs []GInfo) *GInfo {
 	if starting.Load() > 0 {
 		return &GInfo{State: "starting", Top: "a goroutine started with simnet.Go has not begun to run"}
 	}
 	for i := range gs {
 		if !blockedStates[gs[i].State] {
 			return &gs[i]
+		}
+		if k := frameKey(gs[i].Text); c.inShortWait(gs[i].ID) && (strings.HasSuffix(k, ".transactionSender") || strings.HasSuffix(k, ".transactionQuerySender")) {
+			// innermost library frame is one of the two send loops, i.e. it sits in their timer select
+			g := gs[i]
+			g.State = "short timer wait"
+			return &g
 		}
 	}
 	return nil
@@ -315,7 +341,7 @@ func (c *Conn) Quiesce(timeout time.Duration) error {
 	for {
 		if c.idle() {
 			gs := c.ModuleGoroutines()
-			if b := busy(gs); b == nil && c.idle() {
+			if b := c.busy(gs); b == nil && c.idle() {
 				streak++
 				if streak >= 2 {
 					return nil
@@ -346,7 +372,7 @@ func (c *Conn) Quiesce(timeout time.Duration) error {
 // otherwise names a runnable one.
 func (c *Conn) AllBlocked() (bool, string) {
 	gs := c.ModuleGoroutines()
-	if b := busy(gs); b != nil {
+	if b := c.busy(gs); b != nil {
 		return false, fmt.Sprintf("goroutine %d [%s] %s", b.ID, b.State, b.Top)
 	}
 	return true, ""
